@@ -159,8 +159,13 @@ class PackedTensor(torch.Tensor):
             data = op(t._data, **kwargs)
             return PackedTensor(data, t._bits, t.size(), t.stride())
         packed = args[0] if len(args) > 0 and isinstance(args[0], PackedTensor) else None
+        packed_out = (kwargs or {}).get("out", None)
         args, kwargs = pytree.tree_map_only(PackedTensor, lambda x: x.unpack(), (args, kwargs or {}))
         output = op(*args, **kwargs)
+        if isinstance(packed_out, PackedTensor) and kwargs["out"].shape == packed_out.shape:
+            # Explicit output: the result has only been written to the unpacked values, that must be packed again
+            packed_out._data = pack_weights(kwargs["out"], packed_out._bits)
+            return packed_out
         schema_args = op._schema.arguments
         if packed is not None and schema_args[0].alias_info is not None and schema_args[0].alias_info.is_write:
             # In-place operation: it has only modified the unpacked values, that must be packed again
